@@ -606,6 +606,11 @@ fn run(tier: Tier) -> Sink {
         for (ty, e) in [(0u8, -40), (0, 30), (1, -30), (1, 20)] {
             jobs.push(Job::Long(p.iter().map(|&(v, r)| (v * 2f64.powi(e), r)).collect(), ty));
         }
+        // extreme magnitudes, sums only (squares of such terms legitimately leave the type, so
+        // the statistics are not judged here): a sum is as well defined at 2^800 as at 1
+        for (ty, e) in [(4u8, -800), (4, 800), (5, -80), (5, 80)] {
+            jobs.push(Job::Long(p.iter().map(|&(v, r)| (v * 2f64.powi(e), r)).collect(), ty));
+        }
     }
     // longest first
     jobs.sort_by_key(|j| match j {
@@ -624,6 +629,8 @@ fn run(tier: Tier) -> Sink {
         }
         // (the statistics are claimed for f32 / f64 only: in the half types an equally valid
         // variance formula may overflow an intermediate, e.g. (sum x)^2 > 65504)
+        Job::Long(p, 4) => judge_long::<f64>(p, s),
+        Job::Long(p, 5) => judge_long::<f32>(p, s),
         Job::Long(p, 2) => judge_long::<f16>(p, s),
         Job::Long(p, _) => judge_long::<bf16>(p, s),
     });
